@@ -1,7 +1,787 @@
-//! C43 — not built yet.
-use lv_common::Ctx;
+//! C43 — Transaction submission keeps account sequences consistent.
+//!
+//! The real `GrpcClient` (public builder, in-process secp256k1 signer, fake transport) submits 1..3 messages
+//! concurrently (`submit_message` / `submit_blobs`, gas limit/price fixed in `TxConfig`) to a fake node that serves `GetLatestBlock`,
+//! `Account`, `BroadcastTx` and `TxStatus` from a generated script and records every request it decides on.
+//! The recorded trace (plus one "done" marker per submission) is replayed against a reference model of the
+//! client's sequence protocol.
+use std::collections::{BTreeMap, BTreeSet};
+use std::sync::{Arc, Mutex};
+use std::time::Duration;
 
-pub fn run(_ctx: &mut Ctx) {
-    eprintln!("C43: check not built yet");
-    std::process::exit(2);
+use celestia_grpc::{GrpcClient, TxConfig};
+use celestia_proto::celestia::core::v1::tx as ptxs;
+use celestia_proto::cosmos::auth::v1beta1 as pauth;
+use celestia_proto::cosmos::bank::v1beta1::MsgSend;
+use celestia_proto::cosmos::base::abci::v1beta1::TxResponse as RawTxResponse;
+use celestia_proto::cosmos::base::tendermint::v1beta1::GetLatestBlockResponse;
+use celestia_proto::cosmos::base::v1beta1::Coin as RawCoin;
+use celestia_proto::cosmos::tx::v1beta1 as ptx;
+use celestia_proto::tendermint_celestia_mods::types::Block as RawBlock;
+use celestia_types::blob::RawBlobTx;
+use celestia_types::block::{Block, Data};
+use celestia_types::nmt::Namespace;
+use celestia_types::{AppVersion, Blob};
+use celestia_types::state::AccAddress;
+use k256::ecdsa::signature::Verifier;
+use k256::ecdsa::{Signature, SigningKey, VerifyingKey};
+use lv_common::Prng;
+use lv_common::prelude::*;
+use lv_gen::chain::{TimeBase, build_chain, simple_chain_spec};
+use prost::{Message, Name};
+use sha2::{Digest, Sha256};
+use tendermint_proto::google::protobuf::Any;
+
+use crate::fake::{FakeEndpoint, Handler, Incoming, Reply};
+
+const P_BLOCK: &str = "/cosmos.base.tendermint.v1beta1.Service/GetLatestBlock";
+const P_ACCOUNT: &str = "/cosmos.auth.v1beta1.Query/Account";
+const P_BROADCAST: &str = "/cosmos.tx.v1beta1.Service/BroadcastTx";
+const P_STATUS: &str = "/celestia.core.v1.tx.Tx/TxStatus";
+const ACCOUNT_NUMBER: u64 = 37;
+const CHAIN_ID: &str = "private";
+
+/// non-sequence check-tx / execution codes used for rejections
+const REJECT_CODES: [u32; 6] = [5, 11, 13, 20, 21, 18];
+
+#[derive(Clone, Debug, Serialize, Deserialize, PartialEq)]
+pub enum Expect {
+    Abs(u32),
+    /// relative to the sequence carried by the offending tx
+    Rel(i8),
+}
+
+#[derive(Clone, Debug, Serialize, Deserialize, PartialEq)]
+pub enum Form {
+    /// TxResponse code 32 (WrongSequence), raw_log carries the text
+    Code32,
+    /// TxResponse code 3 (InvalidSequence)
+    Code3,
+    /// gRPC status error whose message carries the text (how simulate / ante-handler failures surface)
+    Grpc { code: u8 },
+}
+
+/// answer to a (re-)signed broadcast
+#[derive(Clone, Debug, Serialize, Deserialize, PartialEq)]
+pub enum BAns {
+    Accept,
+    CacheHit,
+    Mismatch { expected: Expect, form: Form },
+    /// sequence code but the log cannot be parsed for the expected value
+    Unparsable { kind: u8 },
+    Reject { code: u8 },
+    GrpcFail { code: u8 },
+}
+
+/// answer to the re-broadcast of an evicted / unknown tx
+#[derive(Clone, Debug, Serialize, Deserialize, PartialEq)]
+pub enum RAns {
+    Accept,
+    CacheHit,
+    Refuse { code: u8 },
+    SequenceRefuse { expected: u32 },
+}
+
+#[derive(Clone, Debug, Serialize, Deserialize, PartialEq)]
+pub enum SAns {
+    Pending,
+    CommittedOk,
+    CommittedFail { code: u8 },
+    /// seq_code: rejected because of a wrong sequence (no roll-back expected)
+    Rejected { code: u8, seq_code: bool },
+    Evicted { re: RAns },
+    Unknown { re: RAns },
+}
+
+#[derive(Clone, Debug, Serialize, Deserialize)]
+pub struct SubSpec {
+    /// submit a blob (PayForBlobs, `sign_and_broadcast_blobs`) instead of a bank message (`sign_and_broadcast_tx`)
+    pub blob: bool,
+    pub start_delay: u8,
+    pub interval_ms: u8,
+    pub broadcast: Vec<BAns>,
+    pub status: Vec<SAns>,
+}
+
+#[derive(Clone, Debug, Serialize, Deserialize)]
+pub struct Case {
+    pub initial_seq: u32,
+    pub high: bool,
+    pub delay_seed: u64,
+    pub max_delay: u8,
+    pub subs: Vec<SubSpec>,
+    /// a last submission issued after all others finished (observes the final belief)
+    pub tail: bool,
+}
+
+fn expect_strategy() -> impl Strategy<Value = Expect> {
+    prop_oneof![2 => (0u32..2000).prop_map(Expect::Abs), 3 => (-3i8..=6).prop_map(Expect::Rel)]
+}
+
+fn form_strategy() -> impl Strategy<Value = Form> {
+    prop_oneof![3 => Just(Form::Code32), 1 => Just(Form::Code3), 2 => prop_oneof![Just(3u8), Just(13u8), Just(9u8), Just(2u8)].prop_map(|code| Form::Grpc { code })]
+}
+
+fn bans_strategy() -> impl Strategy<Value = BAns> {
+    prop_oneof![
+        5 => Just(BAns::Accept),
+        2 => Just(BAns::CacheHit),
+        5 => (expect_strategy(), form_strategy()).prop_map(|(expected, form)| BAns::Mismatch { expected, form }),
+        1 => (0u8..4).prop_map(|kind| BAns::Unparsable { kind }),
+        2 => (0u8..6).prop_map(|code| BAns::Reject { code }),
+        1 => prop_oneof![Just(3u8), Just(13u8), Just(5u8)].prop_map(|code| BAns::GrpcFail { code }),
+    ]
+}
+
+fn rans_strategy() -> impl Strategy<Value = RAns> {
+    prop_oneof![
+        4 => Just(RAns::Accept),
+        1 => Just(RAns::CacheHit),
+        2 => (0u8..6).prop_map(|code| RAns::Refuse { code }),
+        1 => (0u32..2000).prop_map(|expected| RAns::SequenceRefuse { expected }),
+    ]
+}
+
+fn sans_strategy() -> impl Strategy<Value = SAns> {
+    prop_oneof![
+        4 => Just(SAns::Pending),
+        3 => Just(SAns::CommittedOk),
+        1 => (0u8..6).prop_map(|code| SAns::CommittedFail { code }),
+        3 => (0u8..6, prop::bool::weighted(0.25)).prop_map(|(code, seq_code)| SAns::Rejected { code, seq_code }),
+        3 => rans_strategy().prop_map(|re| SAns::Evicted { re }),
+        1 => rans_strategy().prop_map(|re| SAns::Unknown { re }),
+    ]
+}
+
+fn sub_strategy() -> impl Strategy<Value = SubSpec> {
+    (prop::bool::weighted(0.35), 0u8..4, 1u8..20, prop::collection::vec(bans_strategy(), 0..4), prop::collection::vec(sans_strategy(), 0..5))
+        .prop_map(|(blob, start_delay, interval_ms, broadcast, status)| SubSpec { blob, start_delay, interval_ms, broadcast, status })
+}
+
+fn case_strategy() -> impl Strategy<Value = Case> {
+    (0u32..1000, prop::bool::weighted(0.1), any::<u64>(), 0u8..4, prop::collection::vec(sub_strategy(), 1..=3), any::<bool>())
+        .prop_map(|(initial_seq, high, delay_seed, max_delay, subs, tail)| Case { initial_seq, high, delay_seed, max_delay, subs, tail })
+}
+
+// ---------------------------------------------------------------------------------------------------------------
+// trace
+
+#[derive(Clone, Debug, PartialEq)]
+enum BKind {
+    Accept,
+    CacheHit,
+    Mismatch(u64),
+    /// terminal failure of the signing loop (reject / unparsable / grpc failure)
+    Fail,
+}
+
+#[derive(Clone, Debug)]
+enum Ev {
+    Block,
+    Account { seq: u64 },
+    /// a broadcast the node treated as (re-)signed submission
+    Sign { sub: usize, seq: u64, body: Vec<u8>, sig_ok: bool, fields_ok: bool, bytes: Vec<u8>, ans: BKind },
+    /// a broadcast arriving while the node had answered Evicted/Unknown for this submission's tx
+    Rebroadcast { sub: usize, bytes: Vec<u8>, accepted: bool },
+    Status { sub: usize, ans: SAns },
+    Foreign { what: String },
+    Done { sub: usize, ok: bool, err: String },
+}
+
+struct SubNode {
+    b_idx: usize,
+    s_idx: usize,
+    awaiting_re: Option<RAns>,
+    events: u64,
+}
+
+struct Node {
+    case: Case,
+    trace: Vec<Ev>,
+    subs: Vec<SubNode>,
+    hashes: BTreeMap<String, usize>,
+    block: Vec<u8>,
+    account: Vec<u8>,
+    vk: VerifyingKey,
+}
+
+fn seq_text(expected: u64, got: u64) -> String {
+    format!("account sequence mismatch, expected {expected}, got {got}: incorrect account sequence")
+}
+
+fn tx_hash(bytes: &[u8]) -> String {
+    hex::encode_upper(Sha256::digest(bytes))
+}
+
+fn tx_response(bytes: &[u8], code: u32, log: String) -> Vec<u8> {
+    ptx::BroadcastTxResponse {
+        tx_response: Some(RawTxResponse { height: 0, txhash: tx_hash(bytes), code, raw_log: log, codespace: if code == 0 { String::new() } else { "sdk".into() }, ..Default::default() }),
+    }
+    .encode_to_vec()
+}
+
+fn status_response(status: &str, height: i64, code: u32, error: &str) -> Vec<u8> {
+    ptxs::TxStatusResponse { height, index: 0, execution_code: code, error: error.into(), status: status.into(), ..Default::default() }.encode_to_vec()
+}
+
+struct Decoded {
+    memo: String,
+    seq: u64,
+    body: Vec<u8>,
+    sig_ok: bool,
+    fields_ok: bool,
+    is_blob: bool,
+}
+
+fn decode_tx(bytes: &[u8], vk: &VerifyingKey) -> Option<Decoded> {
+    // a blob transaction wraps the signed tx: BlobTx { tx, blobs, type_id: "BLOB" }
+    let inner: Vec<u8> = match RawBlobTx::decode(bytes) {
+        Ok(b) if b.type_id == "BLOB" => b.tx,
+        _ => bytes.to_vec(),
+    };
+    let is_blob = inner.len() != bytes.len();
+    let bytes = inner.as_slice();
+    let raw = ptx::TxRaw::decode(bytes).ok()?;
+    let body = ptx::TxBody::decode(raw.body_bytes.as_slice()).ok()?;
+    let auth = ptx::AuthInfo::decode(raw.auth_info_bytes.as_slice()).ok()?;
+    let si = auth.signer_infos.first()?;
+    let doc = ptx::SignDoc { body_bytes: raw.body_bytes.clone(), auth_info_bytes: raw.auth_info_bytes.clone(), chain_id: CHAIN_ID.into(), account_number: ACCOUNT_NUMBER };
+    let sig_ok = raw.signatures.len() == 1
+        && Signature::from_slice(&raw.signatures[0]).map(|s| vk.verify(&doc.encode_to_vec(), &s).is_ok()).unwrap_or(false);
+    let fields_ok = auth.signer_infos.len() == 1 && body.messages.len() == 1 && auth.fee.as_ref().is_some_and(|f| f.gas_limit == 100_000);
+    Some(Decoded { memo: body.memo.clone(), seq: si.sequence, body: raw.body_bytes, sig_ok, fields_ok, is_blob })
+}
+
+impl Node {
+    fn delay_for(&mut self, sub: usize) -> u64 {
+        if self.case.max_delay == 0 {
+            return 0;
+        }
+        let s = &mut self.subs[sub];
+        s.events += 1;
+        Prng::new(self.case.delay_seed ^ ((sub as u64) << 32) ^ s.events).below(self.case.max_delay as u64 + 1)
+    }
+
+    fn re_answer(&mut self, sub: usize, bytes: &[u8], re: &RAns, seq: u64) -> Reply {
+        let (accepted, reply) = match re {
+            RAns::Accept => (true, Reply::Ok(tx_response(bytes, 0, String::new()))),
+            RAns::CacheHit => (false, Reply::Ok(tx_response(bytes, 19, "tx already in mempool cache".into()))),
+            RAns::Refuse { code } => (false, Reply::Ok(tx_response(bytes, REJECT_CODES[*code as usize % REJECT_CODES.len()], "refused".into()))),
+            RAns::SequenceRefuse { expected } => (false, Reply::Ok(tx_response(bytes, 32, seq_text(*expected as u64, seq)))),
+        };
+        self.trace.push(Ev::Rebroadcast { sub, bytes: bytes.to_vec(), accepted });
+        reply
+    }
+
+    fn on_broadcast(&mut self, inc: &Incoming) -> Reply {
+        let Some(req) = inc.decode::<ptx::BroadcastTxRequest>() else {
+            self.trace.push(Ev::Foreign { what: "undecodable BroadcastTxRequest".into() });
+            return Reply::Status { code: 3, message: "bad request".into(), trailers_only: true };
+        };
+        let bytes = req.tx_bytes;
+        let Some(d) = decode_tx(&bytes, &self.vk) else {
+            self.trace.push(Ev::Foreign { what: "undecodable tx".into() });
+            return Reply::Ok(tx_response(&bytes, 2, "tx parse error".into()));
+        };
+        let Some(sub) = d.memo.strip_prefix("sub-").and_then(|s| s.parse::<usize>().ok()).filter(|s| *s < self.subs.len()) else {
+            self.trace.push(Ev::Foreign { what: format!("tx with unknown memo {:?}", d.memo) });
+            return Reply::Ok(tx_response(&bytes, 2, "unknown".into()));
+        };
+        if req.mode != ptx::BroadcastMode::Sync as i32 {
+            self.trace.push(Ev::Foreign { what: format!("broadcast mode {}", req.mode) });
+        }
+        if let Some(re) = self.subs[sub].awaiting_re.take() {
+            return self.re_answer(sub, &bytes, &re, d.seq);
+        }
+        let spec = self.case.subs.get(sub).cloned();
+        let idx = self.subs[sub].b_idx;
+        self.subs[sub].b_idx += 1;
+        let ans = spec.and_then(|s| s.broadcast.get(idx).cloned()).unwrap_or(BAns::Accept);
+        let (kind, reply) = match &ans {
+            BAns::Accept => (BKind::Accept, Reply::Ok(tx_response(&bytes, 0, String::new()))),
+            BAns::CacheHit => (BKind::CacheHit, Reply::Ok(tx_response(&bytes, 19, "tx already in mempool cache".into()))),
+            BAns::Mismatch { expected, form } => {
+                let n = match expected {
+                    Expect::Abs(n) => *n as u64,
+                    Expect::Rel(dl) => if *dl >= 0 { d.seq.saturating_add(*dl as u64) } else { d.seq.saturating_sub(dl.unsigned_abs() as u64) },
+                };
+                let text = seq_text(n, d.seq);
+                let reply = match form {
+                    Form::Code32 => Reply::Ok(tx_response(&bytes, 32, text)),
+                    Form::Code3 => Reply::Ok(tx_response(&bytes, 3, text)),
+                    Form::Grpc { code } => Reply::Status { code: *code as i32, message: format!("rpc error: {text}"), trailers_only: (n % 2) == 0 },
+                };
+                (BKind::Mismatch(n), reply)
+            }
+            BAns::Unparsable { kind } => {
+                let text = match kind % 4 {
+                    0 => "account sequence mismatch, expected 12".to_string(),
+                    1 => "account sequence mismatch, expected many, got 3: incorrect account sequence".to_string(),
+                    2 => "incorrect account sequence".to_string(),
+                    _ => "account sequence mismatch, expected -4, got 3".to_string(),
+                };
+                (BKind::Fail, Reply::Ok(tx_response(&bytes, 32, text)))
+            }
+            BAns::Reject { code } => (BKind::Fail, Reply::Ok(tx_response(&bytes, REJECT_CODES[*code as usize % REJECT_CODES.len()], "rejected by check-tx".into()))),
+            BAns::GrpcFail { code } => (BKind::Fail, Reply::Status { code: *code as i32, message: "broadcast failed for unrelated reasons".into(), trailers_only: true }),
+        };
+        if matches!(kind, BKind::Accept | BKind::CacheHit) {
+            self.hashes.insert(tx_hash(&bytes), sub);
+        }
+        let kind_ok = self.case.subs.get(sub).map(|s| s.blob == d.is_blob).unwrap_or(!d.is_blob);
+        self.trace.push(Ev::Sign { sub, seq: d.seq, body: d.body, sig_ok: d.sig_ok, fields_ok: d.fields_ok && kind_ok, bytes, ans: kind });
+        reply
+    }
+
+    fn on_status(&mut self, inc: &Incoming) -> Reply {
+        let Some(req) = inc.decode::<ptxs::TxStatusRequest>() else {
+            self.trace.push(Ev::Foreign { what: "undecodable TxStatusRequest".into() });
+            return Reply::Status { code: 3, message: "bad request".into(), trailers_only: true };
+        };
+        let Some(&sub) = self.hashes.get(&req.tx_id.to_uppercase()) else {
+            self.trace.push(Ev::Foreign { what: format!("status query for a hash the node never accepted: {}", req.tx_id) });
+            return Reply::Ok(status_response("COMMITTED", 5, 0, ""));
+        };
+        let idx = self.subs[sub].s_idx;
+        self.subs[sub].s_idx += 1;
+        let ans = self.case.subs.get(sub).and_then(|s| s.status.get(idx).cloned()).unwrap_or(SAns::CommittedOk);
+        let reply = match &ans {
+            SAns::Pending => Reply::Ok(status_response("PENDING", 0, 0, "")),
+            SAns::CommittedOk => Reply::Ok(status_response("COMMITTED", 100 + sub as i64, 0, "")),
+            SAns::CommittedFail { code } => Reply::Ok(status_response("COMMITTED", 100 + sub as i64, REJECT_CODES[*code as usize % REJECT_CODES.len()], "execution failed")),
+            SAns::Rejected { code, seq_code } => {
+                let c = if *seq_code { if code % 2 == 0 { 32 } else { 3 } } else { REJECT_CODES[*code as usize % REJECT_CODES.len()] };
+                Reply::Ok(status_response("REJECTED", 0, c, "rejected in prepare proposal"))
+            }
+            SAns::Evicted { re } => {
+                self.subs[sub].awaiting_re = Some(re.clone());
+                Reply::Ok(status_response("EVICTED", 0, 0, ""))
+            }
+            SAns::Unknown { re } => {
+                self.subs[sub].awaiting_re = Some(re.clone());
+                Reply::Ok(status_response("UNKNOWN", 0, 0, ""))
+            }
+        };
+        self.trace.push(Ev::Status { sub, ans });
+        reply
+    }
+}
+
+// ---------------------------------------------------------------------------------------------------------------
+// scenario
+
+fn signing_key() -> SigningKey {
+    SigningKey::from_slice(&[0x43; 32]).unwrap()
+}
+
+fn initial_sequence(case: &Case) -> u64 {
+    if case.high { (1u64 << 40) + case.initial_seq as u64 } else { case.initial_seq as u64 }
+}
+
+fn run_scenario(case: &Case) -> Vec<Ev> {
+    let sk = signing_key();
+    let vk = *sk.verifying_key();
+    let address = AccAddress::from(vk);
+    // chain state answer
+    let chain = build_chain(&simple_chain_spec(7, 10, 1, TimeBase::Fixed(1_700_000_000), 1000));
+    let header = chain.headers[0].header.clone();
+    assert_eq!(header.chain_id.as_str(), CHAIN_ID);
+    let block = Block::new(header, Data { txs: vec![], square_size: 1, hash: vec![0; 32] }, Default::default(), None);
+    let block_msg = GetLatestBlockResponse { block_id: None, block: Some(RawBlock::from(block)), sdk_block: None }.encode_to_vec();
+    let base = pauth::BaseAccount { address: address.to_string(), pub_key: None, account_number: ACCOUNT_NUMBER, sequence: initial_sequence(case) };
+    let account_msg = pauth::QueryAccountResponse { account: Some(Any { type_url: pauth::BaseAccount::type_url(), value: base.encode_to_vec() }) }.encode_to_vec();
+
+    let total = case.subs.len() + usize::from(case.tail);
+    let node = Arc::new(Mutex::new(Node {
+        case: case.clone(),
+        trace: Vec::new(),
+        subs: (0..total).map(|_| SubNode { b_idx: 0, s_idx: 0, awaiting_re: None, events: 0 }).collect(),
+        hashes: BTreeMap::new(),
+        block: block_msg,
+        account: account_msg,
+        vk,
+    }));
+
+    let handler: Handler = {
+        let node = node.clone();
+        Arc::new(move |inc: Incoming| {
+            let node = node.clone();
+            Box::pin(async move {
+                // delay first (keyed by the submission when it can be told), then decide + record atomically
+                let delay = {
+                    let mut n = node.lock().unwrap();
+                    let sub = match inc.path.as_str() {
+                        P_BROADCAST => inc
+                            .decode::<ptx::BroadcastTxRequest>()
+                            .and_then(|r| decode_tx(&r.tx_bytes, &n.vk))
+                            .and_then(|d| d.memo.strip_prefix("sub-").and_then(|s| s.parse::<usize>().ok())),
+                        P_STATUS => inc.decode::<ptxs::TxStatusRequest>().and_then(|r| n.hashes.get(&r.tx_id.to_uppercase()).copied()),
+                        _ => None,
+                    };
+                    match sub {
+                        Some(s) if s < n.subs.len() => n.delay_for(s),
+                        _ => 0,
+                    }
+                };
+                if delay > 0 {
+                    tokio::time::sleep(Duration::from_millis(delay)).await;
+                }
+                let mut n = node.lock().unwrap();
+                match inc.path.as_str() {
+                    P_BLOCK => {
+                        n.trace.push(Ev::Block);
+                        Reply::Ok(n.block.clone())
+                    }
+                    P_ACCOUNT => {
+                        let seq = initial_sequence(&n.case);
+                        n.trace.push(Ev::Account { seq });
+                        Reply::Ok(n.account.clone())
+                    }
+                    P_BROADCAST => n.on_broadcast(&inc),
+                    P_STATUS => n.on_status(&inc),
+                    other => {
+                        n.trace.push(Ev::Foreign { what: format!("unexpected method {other}") });
+                        Reply::Status { code: 12, message: "unimplemented".into(), trailers_only: true }
+                    }
+                }
+            })
+        })
+    };
+
+    let client = GrpcClient::builder().transport(FakeEndpoint::new(0, handler)).signer_keypair(sk).build().expect("client builds");
+    let rt = tokio::runtime::Builder::new_current_thread().enable_time().start_paused(true).build().unwrap();
+    let from = address.to_string();
+    let submit = |client: GrpcClient, node: Arc<Mutex<Node>>, sub: usize, blob: bool, start_delay: u64, interval: u64, from: String| async move {
+        if start_delay > 0 {
+            tokio::time::sleep(Duration::from_millis(start_delay)).await;
+        }
+        let msg = MsgSend { from_address: from.clone(), to_address: from, amount: vec![RawCoin { denom: "utia".into(), amount: format!("{}", 1000 + sub) }] };
+        let cfg = TxConfig::default().with_gas_limit(100_000).with_gas_price(0.002).with_memo(format!("sub-{sub}")).with_confirmation_interval_ms(interval);
+        let res = if blob {
+            let ns = Namespace::new_v0(b"c43").expect("namespace");
+            let b = Blob::new(ns, format!("blob of submission {sub}").into_bytes(), None, AppVersion::V3).expect("blob");
+            client.submit_blobs(&[b], cfg).await
+        } else {
+            client.submit_message(msg, cfg).await
+        };
+        let (ok, err) = match &res {
+            Ok(_) => (true, String::new()),
+            Err(e) => (false, e.to_string()),
+        };
+        node.lock().unwrap().trace.push(Ev::Done { sub, ok, err });
+    };
+    rt.block_on(async {
+        let mut handles = Vec::new();
+        for (i, s) in case.subs.iter().enumerate() {
+            handles.push(tokio::spawn(submit(client.clone(), node.clone(), i, s.blob, s.start_delay as u64, s.interval_ms.max(1) as u64, from.clone())));
+        }
+        for h in handles {
+            if let Err(e) = h.await {
+                if e.is_panic() {
+                    std::panic::resume_unwind(e.into_panic());
+                }
+            }
+        }
+        if case.tail {
+            submit(client.clone(), node.clone(), case.subs.len(), false, 0, 1, from.clone()).await;
+        }
+    });
+    drop(rt);
+    let n = node.lock().unwrap();
+    n.trace.clone()
+}
+
+// ---------------------------------------------------------------------------------------------------------------
+// reference model
+
+#[derive(Clone, Debug, PartialEq, Eq, PartialOrd, Ord)]
+struct MState {
+    belief: u64,
+    /// roll-backs decided by a Rejected status but possibly not applied yet: submission -> sequence
+    pending: BTreeMap<usize, u64>,
+}
+
+/// all states reachable by applying any sequence of pending roll-backs (each application overwrites the belief)
+fn closure(states: &BTreeSet<MState>) -> BTreeSet<MState> {
+    let mut out = states.clone();
+    let mut frontier: Vec<MState> = states.iter().cloned().collect();
+    while let Some(s) = frontier.pop() {
+        for (sub, seq) in s.pending.clone() {
+            let mut n = s.clone();
+            n.pending.remove(&sub);
+            n.belief = seq;
+            if out.insert(n.clone()) {
+                frontier.push(n);
+            }
+        }
+    }
+    out
+}
+
+#[derive(Default, Clone)]
+struct SubModel {
+    /// sequence the node told this submission to use, while it still holds the account (signing loop)
+    forced: Option<u64>,
+    body: Option<Vec<u8>>,
+    accepted: Option<(Vec<u8>, u64)>,
+    in_loop: bool,
+    finished_loop: bool,
+    last_status: Option<SAns>,
+    done: bool,
+}
+
+fn judge(case: &Case, trace: &[Ev], obs: &mut Obs) -> Result<(), Failure> {
+    let total = case.subs.len() + usize::from(case.tail);
+    let mut subs: Vec<SubModel> = vec![SubModel::default(); total];
+    let mut states: BTreeSet<MState> = BTreeSet::new();
+    let mut accounts = 0;
+    let mut interesting = false;
+    let mut holder: Option<usize> = None; // submission currently inside its signing loop (holds the account)
+    let brief = |i: usize| -> String {
+        let lo = i.saturating_sub(6);
+        trace[lo..=i]
+            .iter()
+            .map(|e| match e {
+                Ev::Sign { sub, seq, ans, .. } => format!("Sign(sub{sub},seq={seq},{ans:?})"),
+                Ev::Rebroadcast { sub, accepted, .. } => format!("Rebroadcast(sub{sub},accepted={accepted})"),
+                Ev::Status { sub, ans, .. } => format!("Status(sub{sub},{ans:?})"),
+                Ev::Done { sub, ok, err } => format!("Done(sub{sub},ok={ok},{err})"),
+                Ev::Account { seq } => format!("Account(seq={seq})"),
+                Ev::Block => "Block".into(),
+                Ev::Foreign { what } => format!("Foreign({what})"),
+            })
+            .collect::<Vec<_>>()
+            .join(" -> ")
+    };
+
+    for (i, ev) in trace.iter().enumerate() {
+        match ev {
+            Ev::Block => {}
+            Ev::Foreign { what } => {
+                obs.fail("C43:unexpected-request", format!("{what}; trace tail: {}", brief(i)))?;
+            }
+            Ev::Account { seq } => {
+                accounts += 1;
+                obs.check(accounts == 1, "C43:account-fetched-twice", || format!("account queried {accounts} times; {}", brief(i)))?;
+                states = BTreeSet::from([MState { belief: *seq, pending: BTreeMap::new() }]);
+            }
+            Ev::Sign { sub, seq, body, sig_ok, fields_ok, bytes, ans } => {
+                let sm = &mut subs[*sub];
+                obs.check(!states.is_empty(), "C43:broadcast-before-account-known", || format!("broadcast before the account was fetched; {}", brief(i)))?;
+                obs.check(*sig_ok, "C43:broadcast-signature-invalid", || format!("signature does not verify over (body, auth_info, chain id, account number); {}", brief(i)))?;
+                obs.check(*fields_ok, "C43:broadcast-tx-malformed", || format!("unexpected tx structure; {}", brief(i)))?;
+                obs.check(!sm.finished_loop && !sm.done, "C43:signed-again-after-broadcast", || {
+                    format!("submission {sub} produced a newly signed broadcast after its tx had been handed to the node (eviction must re-broadcast identical bytes, never re-sign); {}", brief(i))
+                })?;
+                if let Some(b) = &sm.body {
+                    obs.check(b == body, "C43:resigned-body-differs", || format!("re-signed tx of submission {sub} has a different body; {}", brief(i)))?;
+                }
+                sm.body = Some(body.clone());
+                match sm.forced {
+                    Some(n) => {
+                        // still the same account holder: the node's expected value must be used, nothing else may interleave
+                        obs.check(*seq == n, "C43:mismatch-not-resynced-to-expected", || {
+                            format!("node answered 'expected {n}' to submission {sub}, the re-signed tx carries sequence {seq}; {}", brief(i))
+                        })?;
+                        obs.label("mismatch-resync-resigned");
+                        let keep: BTreeSet<MState> = states.iter().filter(|s| s.belief == *seq).cloned().collect();
+                        states = if keep.is_empty() { states.iter().map(|s| MState { belief: *seq, pending: s.pending.clone() }).collect() } else { keep };
+                    }
+                    None => {
+                        if let Some(h) = holder {
+                            obs.check(h == *sub, "C43:signing-loops-interleaved", || {
+                                format!("submission {sub} broadcast a signed tx while submission {h} was still inside its sign-and-broadcast loop; {}", brief(i))
+                            })?;
+                        }
+                        let cl = closure(&states);
+                        if cl.len() > states.len() {
+                            obs.label("rollback-order-nondeterministic");
+                        }
+                        let keep: BTreeSet<MState> = cl.iter().filter(|s| s.belief == *seq).cloned().collect();
+                        if keep.is_empty() {
+                            let beliefs: BTreeSet<u64> = cl.iter().map(|s| s.belief).collect();
+                            obs.fail(
+                                "C43:broadcast-sequence-not-believed",
+                                format!("submission {sub} broadcast a tx signed with sequence {seq}, but the sequence the client can believe current at this point is one of {beliefs:?}; {}", brief(i)),
+                            )?;
+                            states = cl.iter().map(|s| MState { belief: *seq, pending: s.pending.clone() }).collect();
+                        } else {
+                            states = keep;
+                        }
+                    }
+                }
+                sm.in_loop = true;
+                holder = Some(*sub);
+                match ans {
+                    BKind::Accept | BKind::CacheHit => {
+                        states = states.iter().map(|s| MState { belief: s.belief + 1, pending: s.pending.clone() }).collect();
+                        sm.accepted = Some((bytes.clone(), *seq));
+                        sm.forced = None;
+                        sm.in_loop = false;
+                        sm.finished_loop = true;
+                        holder = None;
+                        obs.label(if *ans == BKind::Accept { "broadcast-accepted" } else { "broadcast-cache-hit" });
+                        if *ans == BKind::CacheHit {
+                            interesting = true;
+                        }
+                    }
+                    BKind::Mismatch(n) => {
+                        states = states.iter().map(|s| MState { belief: *n, pending: s.pending.clone() }).collect();
+                        sm.forced = Some(*n);
+                        interesting = true;
+                        obs.label("mismatch-answered");
+                    }
+                    BKind::Fail => {
+                        sm.forced = None;
+                        sm.in_loop = false;
+                        sm.finished_loop = true;
+                        holder = None;
+                        interesting = true;
+                        obs.label("broadcast-refused");
+                    }
+                }
+            }
+            Ev::Rebroadcast { sub, bytes, accepted } => {
+                let sm = &mut subs[*sub];
+                interesting = true;
+                match &sm.accepted {
+                    Some((orig, _)) => {
+                        obs.check(orig == bytes, "C43:evicted-tx-resigned", || {
+                            let seq = decode_tx(bytes, signing_key().verifying_key()).map(|d| d.seq);
+                            format!("tx of submission {sub} was evicted/unknown; the re-broadcast bytes differ from the accepted tx (sequence now {seq:?}); {}", brief(i))
+                        })?;
+                    }
+                    None => obs.fail("C43:rebroadcast-without-accepted-tx", format!("{}", brief(i)))?,
+                }
+                obs.label(if *accepted { "rebroadcast-accepted" } else { "rebroadcast-refused" });
+                // no belief change
+            }
+            Ev::Status { sub, ans, .. } => {
+                let sm = &mut subs[*sub];
+                match ans {
+                    SAns::Rejected { seq_code, .. } => {
+                        interesting = true;
+                        if !*seq_code {
+                            if let Some((_, seq)) = &sm.accepted {
+                                let seq = *seq;
+                                states = states
+                                    .iter()
+                                    .map(|s| {
+                                        let mut n = s.clone();
+                                        n.pending.insert(*sub, seq);
+                                        n
+                                    })
+                                    .collect();
+                            }
+                            obs.label("status-rejected-rollback");
+                        } else {
+                            obs.label("status-rejected-sequence-code");
+                        }
+                    }
+                    SAns::Pending => obs.label("status-pending"),
+                    SAns::Evicted { .. } => obs.label("status-evicted"),
+                    SAns::Unknown { .. } => obs.label("status-unknown"),
+                    SAns::CommittedOk => obs.label("status-committed"),
+                    SAns::CommittedFail { .. } => obs.label("status-committed-failed"),
+                }
+                sm.last_status = Some(ans.clone());
+            }
+            Ev::Done { sub, ok, err } => {
+                let sm = &mut subs[*sub];
+                sm.done = true;
+                if sm.in_loop {
+                    // left the signing loop with an error that never reached the node's script (e.g. parse failure)
+                    sm.in_loop = false;
+                    if holder == Some(*sub) {
+                        holder = None;
+                    }
+                }
+                // every roll-back owed by this submission has been applied before its future resolved
+                let cl = closure(&states);
+                let keep: BTreeSet<MState> = cl.iter().filter(|s| !s.pending.contains_key(sub)).cloned().collect();
+                states = keep;
+                obs.label(if *ok { "submission-ok" } else { "submission-err" });
+                if !*ok {
+                    let class = if err.contains("Broadcasting transaction") {
+                        "broadcast-failed"
+                    } else if err.contains("execution failed") {
+                        "execution-failed"
+                    } else if err.contains("was rejected") {
+                        "tx-rejected"
+                    } else if err.contains("was evicted") {
+                        "tx-evicted"
+                    } else if err.contains("wasn't found") {
+                        "tx-not-found"
+                    } else if err.contains("parse expected sequence") {
+                        "sequence-parsing-failed"
+                    } else if err.starts_with("status:") {
+                        "grpc-status"
+                    } else {
+                        "other"
+                    };
+                    obs.label(&format!("err:{class}"));
+                }
+                // result plausibility (labels only; not part of the property)
+                match (&sm.last_status, ok) {
+                    (Some(SAns::CommittedOk), true) | (None, true) => {}
+                    (Some(SAns::CommittedOk), false) | (_, true) => obs.label("result-unexpected-for-script"),
+                    _ => {}
+                }
+            }
+        }
+    }
+    for (i, s) in subs.iter().enumerate() {
+        obs.check(s.done, "C43:submission-did-not-finish", || format!("submission {i} never resolved"))?;
+    }
+    if case.subs.len() >= 2 {
+        obs.label(&format!("concurrent-{}", case.subs.len()));
+    }
+    if case.tail {
+        obs.label("tail-submission");
+    }
+    if case.subs.iter().any(|s| s.blob) {
+        obs.label("blob-submission");
+        if case.subs.iter().any(|s| !s.blob) && case.subs.len() >= 2 {
+            obs.label("blob-and-message-concurrent");
+        }
+    }
+    obs.eval(interesting.then(|| digest_of(case)));
+    Ok(())
+}
+
+pub fn run(ctx: &mut Ctx) {
+    ctx.assume("the client is observed only through what reaches the fake node (decoded BroadcastTx/TxStatus/Account requests, in the order the node decides its answers) plus one completion marker per submission; the client's private sequence variable is inferred by the reference model, not read");
+    ctx.assume("roll-backs after a REJECTED status are applied at an unobservable moment between the status answer and the submission's completion: the model keeps every admissible belief (set of states) and flags a broadcast only if no admissible belief matches");
+    ctx.assume("interleavings are those tokio's current-thread scheduler produces under generated start delays, polling intervals and per-answer node delays (virtual time); exhaustive model checking of the 3-submission protocol is outside this technique");
+    ctx.assume("gas limit and price are set in TxConfig (no simulation / estimation calls); messages are bank MsgSend or a one-blob PayForBlobs; sequences stay far below u64::MAX");
+    ctx.essential(&[
+        "broadcast-accepted",
+        "broadcast-cache-hit",
+        "mismatch-answered",
+        "mismatch-resync-resigned",
+        "broadcast-refused",
+        "status-rejected-rollback",
+        "status-rejected-sequence-code",
+        "status-evicted",
+        "status-unknown",
+        "rebroadcast-accepted",
+        "rebroadcast-refused",
+        "rollback-order-nondeterministic",
+        "concurrent-2",
+        "concurrent-3",
+        "tail-submission",
+        "blob-submission",
+        "blob-and-message-concurrent",
+    ]);
+    let cases = ctx.tier.pick(10000, 100000);
+    ctx.proptest(
+        "sequence-protocol",
+        "1..3 concurrent submit_message / submit_blobs calls (+ optional trailing one) against a scripted fake node: per submission a list of broadcast answers (accept, mempool-cache hit, sequence mismatch 'expected N' as TxResponse code 32/3 or as gRPC status text, unparsable mismatch, rejection, gRPC failure) and a list of status answers (pending, committed ok/failed, rejected with/without sequence code, evicted/unknown followed by a re-broadcast answer), generated delays. The recorded trace is replayed against the reference model: every signed broadcast carries a sequence the client can believe current; +1 per accepted broadcast or cache hit; 'expected N' forces the re-signed tx (same body) to carry N; re-broadcast after eviction is byte-identical; non-sequence rejection rolls the belief back to that tx's sequence; signing loops never interleave. Non-trivial = a script in which the node answered at least one mismatch, cache hit, refusal, rejection or eviction (distinct by recipe)",
+        cases,
+        case_strategy,
+        |case, obs| {
+            let trace = run_scenario(case);
+            judge(case, &trace, obs)
+        },
+    );
 }
